@@ -78,6 +78,13 @@ def astNotAOrB : Expr := .boolop true (.not (.atom 2)) (.cons (.atom 3) .nil)
 example : ∀ I : Interp, (genOf astNotAndNot).eval I = (genOf astNotAOrB).eval I :=
   C03_source_equiv codeGenNotAndNot _ _ (by decide) (by decide)
 
+/-- constants with a known truth value: `(x for x in .0 if 1 and a)` is compiled to the code of `if a` (atom 5 = the constant 1),
+    and the checker proves the source AST equal to it -/
+def codeGenCondA : List Instr :=
+  [.load 0, .forIter, .store 1, .load 2, .jumpIf true 6, .jumpBack 1, .load 1, .yieldValue, .popTop, .jumpBack 1]
+example : check codeGenCondA (genOf (.boolop false (.lit 5 true) (.cons (.atom 2) .nil))) = true := by decide
+example : check codeGenCondA (genOf (.boolop false (.lit 5 false) (.cons (.atom 2) .nil))) = false := by decide
+
 /-- an interpretation under which `b` is false and `==` tells `b` from `True` -/
 def witnessI : Interp :=
   { atom := fun n => .obj n
@@ -93,7 +100,7 @@ theorem C03_decompiled_eq_and_differs : run codeGenEqAnd witnessI ≠ (genOf ast
   simp [genOf, astEqAnd, astEqNotOr, Top.eval, evalClauses, evalIfs, Expr.eval, CmpRest.evalChain, Args.evalBool, Interp.cmpVal,
     witnessI, Interp.truth]
 
-/-! ### the defect that remains after the contained repairs (fixes/C03-copy-value-context.diff): a conditional expression whose test
+/-! ### a defect of the decompiler before /repo 94f2ccd (now a corpus regression input): a conditional expression whose test
 mixes `not` with and/or, in value context (atoms: 0 = `.0`, 1 = x, 2 = a, 3 = b, 4 = c, 5 = d) -/
 
 /-- `((c if (a or (not b)) else d) for x in .0)` as compiled by CPython 3.12 -/
